@@ -140,7 +140,7 @@ var propSpecs = map[string]*PropSpec{
 		Level:       "proof",
 		Explanation: "partial: the committed ledger of no-panic sites (index, slice bounds, make sizes, map stores, integer division) in internal/router, internal/server/** and internal/util that a contract-free safe-mode sweep proved for all inputs is re-proved on the current tree (a site that stops discharging is a violation; a site whose expression is gone is undecided); plus safe-mode contracts on handlers found to index request-derived strings (tables.GrantPermissions / validPermissions); functions under contract for other properties carry their own safe obligations there",
 		TrustedBase: []string{"nil dereferences, unchecked type assertions and everything the sweep never proved are NOT claimed (counts in the evidence notes; ledger/C40.open.txt lists the sites left open)", "each function is swept on its own with unconstrained parameters (a non-nil receiver only): sites that need a caller's guarantee are left open, not assumed", "panics inside callees (library code, other packages) are outside each site's obligation"},
-		Sweep:       []string{modInternal + "router", modInternal + "server/", modInternal + "util"},
+		Sweep:       []string{modInternal + "router", modInternal + "server/", modInternal + "util", modInternal + "validate", modInternal + "dsns", modInternal + "resources", modInternal + "language/tokens", modInternal + "caches"},
 		Extra:       ledgerExtra,
 	},
 	"C03": {
